@@ -64,7 +64,7 @@ class P(Property):
             '(decoded by the reference decoder: must be :status 431), stop/reset codes, connection close. lim.tx: own limit (irrelevant, '
             'varied) x peer limit P in {absent,0,1,41,42,43,75,167,199..202,1000,2500,2^32,2^62-1, seeded} x programs of send_request / '
             'send_response / send_trailers (sizes up to 2500: the extracted Huffman encoder model is quadratic) with sizes P-2..P+2 and seeded others, with the peer SETTINGS applied before, between or after '
-            'the send attempts or never; observed per call: Ok or HeaderTooBig and exactly what was written (decoded by the reference '
+            'the send attempts or never, and (lim.txw) while send_request is parked waiting for stream credit (0 bidirectional credit, SETTINGS processed, then credit granted); observed per call: Ok or HeaderTooBig and exactly what was written (decoded by the reference '
             'decoder: must be the intended field list). non-trivial = lim.rx cases with a valid section, lim.tx cases with a send call')
     trusted_extra = [
         'harness/src/bin/c10.rs scripted peer: builds the SETTINGS / HEADERS frames the peer sends and parses the frames h3 writes',
@@ -153,6 +153,12 @@ class P(Property):
                             else:
                                 ops.append('T%d' % rng.choice(ts))
                         out.append('lim.tx %s %d %s %s' % (role, own, P, ','.join(ops)))
+        # ---- back-pressure: the request call is parked on stream credit while the peer's SETTINGS arrive
+        for P in ['-', 0, 1, 42, 166, 167, 168, 199, 200, 201, 202, 1000, MAXL] + [rng.randint(170, 2500) for _ in range(6 if quick else 60)]:
+            pv = MAXL if P == '-' else P
+            ks = {167, 200, rng.randint(200, 2500)} | ({pv + d for d in (-2, -1, 0, 1, 2)} if pv <= 2500 else set())
+            for k in sorted(k for k in ks if k >= 0 and k_ok('req', k)):
+                out.append('lim.txw cli %d %s %d' % (rng.choice([0, 100, MAXL]), P, k))
         return out
 
     # ------------------------------------------------------------------ comparison
@@ -192,6 +198,11 @@ class P(Property):
                     if tok.startswith('tx=') and tok[3:] not in ('-',) and not tok[3:].startswith('?'):
                         lines.append('q.ref ' + tok[3:])
                         want.append((c, i, 'ok ' + fields_str([(b':status', b'431')])))
+            elif w[0] == 'lim.txw':
+                p = i.split()[1].split(':') if len(i.split()) > 1 else []
+                if len(p) == 3 and p[1] == 'ok':
+                    lines.append('q.ref ' + p[2])
+                    want.append((c, i, 'ok ' + fields_str(expected_fields('cli', 'H', int(w[4])))))
             elif w[0] == 'lim.tx':
                 ops = [o for o in w[4].split(',')]
                 toks = i.split()[1:]
@@ -215,6 +226,8 @@ class P(Property):
         w = case.split()
         if w[0] == 'lim.rx':
             return case if len(w[5]) > 4 else None
+        if w[0] == 'lim.txw':
+            return case
         return case if ('H' in w[4] or 'T' in w[4]) else None
 
     def shrink_candidates(self, case):
